@@ -265,6 +265,75 @@ fn size_sweep(rep: &mut Report, args: &Args, ev: &Evaluator, strict: &Opts) {
     }
 }
 
+/// Long flat chains of one operator, with every position in turn being the operand that decides:
+/// `f0 || f1 || … || fn` where only members from position k on exist, `f0 && … && fn` where
+/// member k is the first falsy one, pipes and comparisons chained left to right. The results
+/// are known by construction.
+fn chain_positions(rep: &mut Report, args: &Args) {
+    if args.shard != 0 {
+        return;
+    }
+    for &n in &[2usize, 3, 4, 5, 6, 7, 8, 9, 10, 11, 12, 16, 17, 33, 64, 65, 129] {
+        for k in 0..n {
+            if n > 17 && k % 7 != 0 && k != n - 1 && k != n - 5 {
+                continue;
+            }
+            let names: Vec<String> = (0..n).map(|i| format!("f{}", i)).collect();
+            // ||: members below k are missing (or falsy), k.. exist
+            let mut d = serde_json::Map::new();
+            for i in 0..n {
+                if i >= k {
+                    d.insert(names[i].clone(), json!(i as i64 + 100));
+                } else if i % 3 == 0 {
+                    d.insert(names[i].clone(), [json!(false), json!(""), json!([]), json!({}), json!(null)][i % 5].clone());
+                }
+            }
+            let cases = vec![
+                (names.join(" || "), Value::Object(d.clone()), json!(k as i64 + 100), "or"),
+                (format!("[{}][0]", names.join(" || ")), Value::Object(d.clone()), json!(k as i64 + 100), "or-in-list"),
+                {
+                    // &&: members below k are truthy, k is falsy (false), later ones truthy
+                    let mut m = serde_json::Map::new();
+                    for i in 0..n {
+                        m.insert(names[i].clone(), if i == k { json!(false) } else { json!(i as i64 + 100) });
+                    }
+                    (names.join(" && "), Value::Object(m), json!(false), "and")
+                },
+                {
+                    // all truthy: && yields the last operand
+                    let mut m = serde_json::Map::new();
+                    for i in 0..n {
+                        m.insert(names[i].clone(), json!(i as i64 + 100));
+                    }
+                    (names.join(" && "), Value::Object(m), json!(n as i64 + 99), "and-all-truthy")
+                },
+                {
+                    // a filter listing n alternatives: exactly the k-th alternative matches the k-th record
+                    let recs: Vec<Value> = (0..n).map(|i| json!({"t": format!("v{}", i), "id": i})).collect();
+                    let alts: Vec<String> = (0..n).filter(|i| *i != k).map(|i| format!("t == 'v{}'", i)).collect();
+                    let want: Vec<Value> = (0..n).filter(|i| *i != k).map(|i| json!(i)).collect();
+                    (format!("[?{}].id", if alts.is_empty() { "`false`".to_string() } else { alts.join(" || ") }), Value::Array(recs), Value::Array(want), "filter-alternatives")
+                },
+            ];
+            for (text, doc, want, what) in cases {
+                rep.evaluations += 1;
+                let got = guarded(|| jmespath::compile(&text).and_then(|e| e.search(rcvar_of(&doc))));
+                let ok = matches!(&got, Ok(Ok(v)) if value_of(v).map_or(false, |g| refimpl::json::val_eq(&g, &want, 0.0)));
+                if ok {
+                    rep.count("chain_position_ok");
+                    rep.nontrivial(refimpl::rng::fnv(format!("chain|{}|{}|{}", what, n, k).as_bytes()));
+                } else {
+                    rep.violation(
+                        "C01/mismatch/long-chain",
+                        json!({"expression": text, "document": doc, "operands": n, "deciding_position": k, "kind": what, "expected": want,
+                               "got": format!("{:?}", got.map(|r| r.map(|v| v.to_string()).map_err(|e| e.to_string())))}),
+                    );
+                }
+            }
+        }
+    }
+}
+
 pub fn run(args: &Args) {
     let mut rep = Report::new("C01");
     let strict = Opts::strict();
@@ -273,6 +342,7 @@ pub fn run(args: &Args) {
     enumerate_small(&mut rep, args, &ev, maxlen);
     close_number_ordering(&mut rep, args);
     size_sweep(&mut rep, args, &ev, &strict);
+    chain_positions(&mut rep, args);
     let cdocs = crate::refcheck::compliance_docs();
     for i in 0..args.n {
         let mut rng = Rng::derive(args.seed, args.shard, i);
